@@ -5,6 +5,7 @@ import (
 	"fmt"
 	"os"
 	"path/filepath"
+	"sort"
 	"strings"
 	"time"
 
@@ -23,7 +24,18 @@ type c18Param struct {
 	Engine  string    `json:"engine"`
 	Scan    bt.Op     `json:"scan"`
 	Writers [][]bt.Op `json:"writers"`
-	Big     []string  `json:"big"` // rows holding >1024 cells (each forces a Send, i.e. a lock release, after it)
+	Big     []string  `json:"big"`            // rows holding >1024 cells (each forces a Send, i.e. a lock release, after it)
+	Fill    int       `json:"fill,omitempty"` // additional one-cell rows f000..f<Fill-1> (scans longer than any batching constant)
+}
+
+// c18Keys is the key universe of a scenario: the fixture rows plus every row a writer may create.
+func c18Keys(p c18Param) []string {
+	ks := []string{"0", "a", "b", "bb", "c", "d", "e", "z"}
+	for i := 0; i < p.Fill; i++ {
+		ks = append(ks, fmt.Sprintf("f%03d", i))
+	}
+	sort.Strings(ks)
+	return ks
 }
 
 func (p c18Param) name() string {
@@ -42,6 +54,9 @@ func (p c18Param) name() string {
 	if p.Scan.Limit > 0 {
 		sc += fmt.Sprintf("+limit%d", p.Scan.Limit)
 	}
+	if p.Fill > 0 {
+		sc += fmt.Sprintf("+fill%d", p.Fill)
+	}
 	return fmt.Sprintf("%s:scan[%s;big=%s]|%s", p.Engine, sc, strings.Join(p.Big, ""), strings.Join(ws, "|"))
 }
 
@@ -50,6 +65,9 @@ func keysOf(o bt.Op) string {
 		s := ""
 		for _, e := range o.Entries {
 			s += string(e.Key)
+		}
+		if len(s) > 12 {
+			s = fmt.Sprintf("%s..%s/%d", o.Entries[0].Key, o.Entries[len(o.Entries)-1].Key, len(o.Entries))
 		}
 		return s
 	}
@@ -74,7 +92,8 @@ func c18Build(c *fw.Ctx, p c18Param) *schedInst {
 	for _, b := range p.Big {
 		big[b] = true
 	}
-	fx := c18Fixture(strings.Join(p.Big, ","), big)
+	fx := c18Fixture(fmt.Sprintf("%s/%d", strings.Join(p.Big, ","), p.Fill), big, p.Fill)
+	universe := c18Keys(p)
 	model := fx.model.Clone()
 	for _, o := range setupT() {
 		if r := d.Apply(&o); r.Code != "OK" {
@@ -191,7 +210,7 @@ func c18Build(c *fw.Ctx, p c18Param) *schedInst {
 					touched[string(e.Key)] = true
 				}
 			case "DropRowRange":
-				for _, k := range []string{"0", "a", "b", "bb", "c", "d", "e", "z"} {
+				for _, k := range universe {
 					if strings.HasPrefix(k, string(w.op.Prefix)) {
 						touched[k] = true
 					}
@@ -218,7 +237,7 @@ func c18Build(c *fw.Ctx, p c18Param) *schedInst {
 			got[row.Key] = bt.RowsString([]bt.RowOut{row})
 		}
 		limited := p.Scan.Limit > 0 && int64(len(r.Rows)) >= p.Scan.Limit
-		for _, k := range []string{"0", "a", "b", "bb", "c", "d", "e", "z"} {
+		for _, k := range universe {
 			if !inScan(k) {
 				if got[k] != "" {
 					return "rowset", fmt.Sprintf("scan returned row %q outside the requested ranges", k), "rowset"
@@ -248,7 +267,7 @@ func c18Build(c *fw.Ctx, p c18Param) *schedInst {
 		}
 		for k := range got {
 			found := false
-			for _, kk := range []string{"0", "a", "b", "bb", "c", "d", "e", "z"} {
+			for _, kk := range universe {
 				found = found || kk == k
 			}
 			if !found {
@@ -258,6 +277,9 @@ func c18Build(c *fw.Ctx, p c18Param) *schedInst {
 		var ks []string
 		for _, row := range r.Rows {
 			ks = append(ks, row.Key)
+		}
+		if len(ks) > 12 {
+			return "", "", fmt.Sprintf("rows=%d msgs=%d", len(ks), r.Messages)
 		}
 		return "", "", fmt.Sprintf("rows=%v msgs=%d", ks, r.Messages)
 	}
@@ -273,7 +295,7 @@ var c18Fixtures = map[string]*c18Fx{}
 
 // c18Fixture builds the initial table once per process through the real API (btree scratch
 // instance), reads the stored rows back raw, and builds the matching model state.
-func c18Fixture(key string, big map[string]bool) *c18Fx {
+func c18Fixture(key string, big map[string]bool, fill int) *c18Fx {
 	if f := c18Fixtures[key]; f != nil {
 		return f
 	}
@@ -291,6 +313,9 @@ func c18Fixture(key string, big map[string]bool) *c18Fx {
 			muts = append(muts, mset("f", fmt.Sprintf("q%04d", i), 1000, "v0-"+k))
 		}
 		setup = append(setup, bt.Op{Kind: "MutateRow", Table: tblT, Key: []byte(k), Muts: muts})
+	}
+	for i := 0; i < fill; i++ {
+		setup = append(setup, bt.Op{Kind: "MutateRow", Table: tblT, Key: []byte(fmt.Sprintf("f%03d", i)), Muts: []bt.Mut{mset("f", "q0000", 1000, "fill")}})
 	}
 	for i := range setup {
 		m.Apply(&setup[i], nil, 0)
@@ -355,7 +380,18 @@ func runC18(c *fw.Ctx) {
 		return bt.Op{Kind: "RMW", Table: tblT, Key: []byte(k), Rules: []bt.Rule{{Fam: "f", Qual: []byte("q0001"), Append: []byte("+")}}}
 	}
 	mrs := bt.Op{Kind: "MutateRows", Table: tblT, Entries: []bt.Entry{{Key: []byte("a"), Muts: []bt.Mut{mset("g", "mr", 1000, "x")}}, {Key: []byte("e"), Muts: []bt.Mut{mset("g", "mr", 1000, "x")}}}}
-	single := []bt.Op{set("a", "w"), set("c", "w"), set("e", "w"), del("a"), del("c"), del("e"), set("bb", "ins"), set("0", "ins"), set("z", "ins"), rmw("b"), rmw("d"), mrs}
+	// rejected after its first rule has been applied in memory: the second rule increments a 4-byte value
+	rmwBad := func(k string) bt.Op {
+		return bt.Op{Kind: "RMW", Table: tblT, Key: []byte(k), Rules: []bt.Rule{{Fam: "g", Qual: []byte("tag"), Append: []byte("seen")}, {Fam: "f", Qual: []byte("q0000"), IsInc: true, Inc: 1}}}
+	}
+	delRun := func(from, to int) bt.Op {
+		o := bt.Op{Kind: "MutateRows", Table: tblT}
+		for i := from; i <= to; i++ {
+			o.Entries = append(o.Entries, bt.Entry{Key: []byte(fmt.Sprintf("f%03d", i)), Muts: []bt.Mut{{Kind: "delrow"}}})
+		}
+		return o
+	}
+	single := []bt.Op{set("a", "w"), set("c", "w"), set("e", "w"), del("a"), del("c"), del("e"), set("bb", "ins"), set("0", "ins"), set("z", "ins"), rmw("b"), rmw("d"), mrs, rmwBad("d"), rmwBad("e")}
 	all := bt.Op{Kind: "ReadRows", Table: tblT}
 	two := bt.Op{Kind: "ReadRows", Table: tblT, HasRowSet: true, Ranges: []bt.Range{{EK: 2, E: []byte("b")}, {SK: 1, S: []byte("c")}}}
 	lim := bt.Op{Kind: "ReadRows", Table: tblT, Limit: 3}
@@ -372,6 +408,14 @@ func runC18(c *fw.Ctx) {
 			scen = append(scen, c18Param{Engine: eng, Scan: two, Writers: [][]bt.Op{{w}}, Big: []string{"a", "c"}})
 			scen = append(scen, c18Param{Engine: eng, Scan: lim, Writers: [][]bt.Op{{w}}, Big: []string{"a", "b"}})
 		}
+		// scans far longer than any batching constant in the engines (the GC pass and iterators work in
+		// batches of ~100 rows): runs of rows around the 100th and 200th position are deleted / rewritten
+		// while the scan has given up the lock after its first row
+		scen = append(scen,
+			c18Param{Engine: eng, Scan: all, Writers: [][]bt.Op{{delRun(90, 110)}}, Big: []string{"a"}, Fill: 230},
+			c18Param{Engine: eng, Scan: all, Writers: [][]bt.Op{{delRun(190, 205)}, {set("f099", "w")}}, Big: []string{"a"}, Fill: 230},
+			c18Param{Engine: eng, Scan: bt.Op{Kind: "ReadRows", Table: tblT, HasRowSet: true, Ranges: []bt.Range{{SK: 1, S: []byte("a"), EK: 2, E: []byte("f150")}, {SK: 1, S: []byte("f160")}}}, Writers: [][]bt.Op{{delRun(95, 105)}, {bt.Op{Kind: "DropRowRange", Table: tblT, Prefix: []byte("f2")}}}, Big: []string{"a"}, Fill: 230},
+		)
 		// two writers, and a writer with two requests on the same row
 		scen = append(scen,
 			c18Param{Engine: eng, Scan: all, Writers: [][]bt.Op{{set("c", "w1")}, {del("c")}}, Big: []string{"a", "c"}},
@@ -394,8 +438,14 @@ func runC18(c *fw.Ctx) {
 			return
 		}
 		bound := 2
+		if p.Fill > 0 {
+			bound = 1 // a writer running entirely inside one lock gap of the scan, at every gap; thorough: 2
+		}
 		if c.Thorough() {
 			bound = 3
+			if p.Fill > 0 {
+				bound = 2
+			}
 			if len(p.Writers) == 1 && len(p.Writers[0]) == 1 && p.Engine != "disk" {
 				bound = -1 // scan + one write request: every interleaving
 			}
